@@ -17,6 +17,7 @@ from mc.engine import h64
 
 ID = 'C16'
 LEVEL = 'model_checking'
+PRELOAD = ['frame.geometry.geometry', 'frame.netlist.netlist', 'frame.die.die', 'frame.allocation.allocation', 'ruamel.yaml', 'mc.common', 'tools.rect.pseudobool']
 RULE = ("BFS over expressions on variables {x,y}: initial states Expr()+t1+t2+c (all polarities, coefficients "
         "-2..3, both variable orders), transitions E+o, E-o, o+E (o: literal, term, int, str, Expr), E*k, k*E "
         "(k in -2..3) and the Literal/Term overloads; states merged on the ordered normal form; comparisons on "
